@@ -1,5 +1,6 @@
 import Zc.Proofs.LinkConverge
 import Zc.Proofs.LinkBridge
+import Zc.Proofs.LinkBridgeK2
 import Zc.GenFacts.Link
 /-! # C07 — end-to-end discovery converges to the set of registered services
 
@@ -185,29 +186,41 @@ theorem C07_K2l_from_C08_partial (lower : String → String) (N : Bridge.Naming)
     K2l Cfg.paper (Bridge.events lower N steps) endT = true :=
   Bridge.K2l_of_run lower N steps T0 endT hrun hd hfair hopen
 
-/-- the contracts that are still hypotheses once K6 is discharged from the C08 model -/
+/-- **K2, safety half, from C08's host machine.**  On the projected trace of every disciplined timed run a PTR with TTL 0 is sent
+only within 250 ms after an `unreg` of its service.  The invariant (`Bridge.Inv2`) is the one C08's own theorems do not need: every
+record in the registry, the queues and the announcing tasks has a non-zero TTL (`Disc2`: services are registered with
+`other_ttl, host_ttl > 0`), and every goodbye task / close sequence descends from a step that took the service out of the
+registry (`Disc2`: `unregister` is called on registered names). -/
+theorem C07_K2s_from_C08 (lower : String → String) (N : Bridge.Naming) (hsv : Function.Injective N.svcId)
+    (steps : List Bridge.Step) (T0 : Int) (hrun : Bridge.IsRun lower Goodbye.Host.init T0 steps)
+    (hd : ∀ st ∈ steps, Bridge.Disc lower st ∧ Bridge.Disc2 lower st) :
+    K2s Cfg.paper (Bridge.events lower N steps) = true :=
+  Bridge.K2s_of_run lower N hsv steps T0 hrun hd
+
+/-- the contracts that are still hypotheses once K2 and K6 are discharged from the C08 model -/
 structure C07_ContractsFromModels (lower : String → String) (tr : Trace) (endT : Int) : Prop where
   wf : WF Cfg.paper tr endT = true
   k1 : K1 Cfg.paper tr endT = true
-  k2 : K2 Cfg.paper tr endT = true
   k3 : K3 Cfg.paper tr endT = true
   k4 : K4 Cfg.paper tr endT = true
   k5 : K5 Cfg.paper tr endT = true
   k7 : K7 Cfg.paper tr endT = true
   k3b : K3b Cfg.paper tr endT = true
-  /-- instead of K6: every host's sends and `reg`/`unreg` events are those of a disciplined run of the C08 host machine -/
-  hosts : Bridge.GeneratedK6 lower tr
+  /-- instead of K2 and K6: every host's sends and `reg`/`unreg` events are those of a disciplined, fair run of the C08 host
+  machine that is not closed before the end of the window -/
+  hosts : Bridge.Generated lower tr endT
+  /-- the route of a goodbye (the machine does not model routes): TTL-0 PTRs are multicast (C11) -/
+  byeMulticast : Bridge.ByeMulticast tr
 
-/-- **C07 with K6 discharged** (partial: WF, K1–K5, K3b remain monitored hypotheses; K6 is a theorem about the C08 host
-model).  Not yet discharged, and why: K2 (goodbyes) and K1 (announcements) are *liveness* clauses — "a datagram is sent at
-t + 125" — and the C08/C09 machines accept every list of enabled blocks, so a run in which a pending task step never happens is a
-run: they follow only under the event-loop axiom that a timer fires at its due time (DESIGN §4.7 `WFSched`), which those models
-do not state; C08_goodbyes / C09_announce_schedule give the schedule of the task, not its execution. -/
+/-- **C07 with K2 and K6 discharged** (partial: WF, K1, K3, K3b, K4, K5 remain monitored hypotheses; K2 and K6 are theorems about
+the C08 host machine — K2's liveness half under the event-loop axiom `Fair`, which the block machines do not state).  K1
+(announcements) is the same liveness pattern over `announceTask`; not discharged yet. -/
 theorem C07_convergence_from_models_partial (lower : String → String) :
     C07_convergence (C07_ContractsFromModels lower) := by
   intro tr endT hc
   exact C07_convergence_partial tr endT
-    ⟨hc.wf, hc.k1, hc.k2, hc.k3, hc.k4, hc.k5, Bridge.K6_of_generated lower tr hc.hosts, hc.k7, hc.k3b⟩
+    ⟨hc.wf, hc.k1, Bridge.K2_of_generated lower tr endT hc.hosts hc.byeMulticast, hc.k3, hc.k4, hc.k5,
+     Bridge.K6_of_generated lower tr (Bridge.Generated_K6 lower tr endT hc.hosts), hc.k7, hc.k3b⟩
 
 /-- non-vacuity of the bridge: C08's example history (register, three announcements, a pointer answer queued in the protected
 queue, unregister 30 ms later, three goodbyes, the queue timer) is a timed run; its projection has a `reg` at 0, an `unreg`
@@ -233,7 +246,7 @@ example : C07_bridgeTrace.map (fun tr => (sends tr).map (fun sd =>
           (1380, [(0, true)])] := by decide
 example : C07_bridgeTrace.map (K6 Cfg.paper) = some true := by decide
 /-- … and the three goodbyes of K2 are there (the example history executes every task step at its due time) -/
-example : C07_bridgeTrace.map (fun tr => K2l Cfg.paper tr 3000) = some true := by decide
+example : C07_bridgeTrace.map (fun tr => K2 Cfg.paper tr 3000) = some true := by decide
 
 /-! ### non-vacuity: a concrete run satisfies every contract, and the conclusion is not trivial on it
 
